@@ -473,7 +473,7 @@ pub fn run(ctx: &Ctx) -> i32 {
     replay_known(ctx, &stats, &mut report, &replay);
     replay_regressions(ctx, &stats, &mut report, &replay);
     let ex = Excl { pre_1970: ctx.open("time.before_1970"), fractional: ctx.open("time.fractional_seconds"), dst_zones: ctx.open("time.dst_zone_buckets"), float_secs: ctx.open("time.float_seconds"), since_numeric: ctx.open("time.since_numeric_spelling"), beyond_u32: ctx.open("time.beyond_year_2106") };
-    let cases = ctx.tier.pick(96, 1500);
+    let cases = ctx.tier.pick(200, 1500);
     let tier = ctx.tier;
     if let Some(f) = explore(ctx, "time-paths", || case_strategy(tier, ex), Explore { cases, max_shrink_iters: ctx.tier.pick(150, 500), lanes: ctx.lanes }, &stats, run_case) {
         report.violations.push(f);
